@@ -109,6 +109,9 @@ class Run:
         self.times = []
         self.latency = None
         self.on_setup_done = None
+        # value shape on the wire (mc/vshape.py); the monitors always see the string tokens
+        self.vshape = self.cfg.get("vshape") or None
+        self.sids = sorted(s["sid"] for s in scen["sims"])
 
     # -- trace ---------------------------------------------------------------
     def ev(self, *a):
@@ -193,7 +196,8 @@ class Run:
             if c.get("weak"):
                 kw["weak"] = True
             if c.get("init"):
-                kw["initial_data"] = {c["sattr"]: init_token(c)}
+                from . import vshape as _vs
+                kw["initial_data"] = {c["sattr"]: _vs.enc(self.vshape, init_token(c), self.sids)}
             if c.get("async"):
                 kw["async_requests"] = True
             pairs = [(c["sattr"], c["dattr"])] if c.get("sattr") else []
